@@ -139,13 +139,15 @@ class Side:
         self.settle()
         return r if r[0] == 'exc' else ('ok',)
 
-    def ack(self, c, ns, which=0):
+    def ack(self, c, ns, which=0, empty=False):
         ids = self.out_ids.get((c, ns))
         if not ids:
             return
         id = ids.pop(which)
         self.last_acked[(c, ns)] = id
-        self.world_of(c).recv_packet(self.t[c], 3, ns, id, ['ack', c])
+        # empty: an acknowledgement without arguments (3<id>[])
+        self.world_of(c).recv_packet(self.t[c], 3, ns, id,
+                                     [] if empty else ['ack', c])
         self.settle()
 
     def reack(self, c, ns):
@@ -258,6 +260,7 @@ class Model:
                     ops.append(('reack', c, ns))
                 if pend:
                     ops.append(('ack', c, ns, 0))
+                    ops.append(('ack', c, ns, 0, 'empty'))
                 if len(pend) > 1:
                     ops.append(('ack', c, ns, -1))
         if self.is_async:
@@ -391,10 +394,22 @@ class Model:
             self._results(w, op, ra, rb)
             w.pendcb[(c, ns)] = w.pendcb.get((c, ns), ()) + (h,)
         elif kind == 'ack':
-            _, c, ns, which = op
+            _, c, ns, which = op[:4]
+            empty = len(op) > 4
             # observe first so that both sides know the id to acknowledge
             self.compare(w, f'before {op}')
-            self._both(w, lambda s: s.ack(c, ns, which))
+            ncb0 = (len(w.A.cb), len(w.B.cb))
+            self._both(w, lambda s: s.ack(c, ns, which, empty))
+            for side, n0, name in ((w.A, ncb0[0], 'cluster'),
+                                   (w.B, ncb0[1], 'single server')):
+                # absolute: the acknowledged emit's callback ran, once,
+                # with the acknowledged arguments (the twin shares the code)
+                new = side.cb[n0:]
+                want = () if empty else ('ack', c)
+                if len(new) != 1 or tuple(new[0][1]) != want:
+                    self._bad(w, 'callback', f'{op}: on the {name} the '
+                              f'acknowledgement {want!r} produced callback '
+                              f'calls {new!r}')
             pend = list(w.pendcb.get((c, ns), ()))
             pend.pop(which)
             if pend:
@@ -484,10 +499,12 @@ class Model:
                             sk = s.sids[skip] if isinstance(skip, tuple) \
                                 else skip
                             if via == 'W':
-                                return s.writer_emit('ev', {'p': n}, to=t,
+                                return s.writer_emit('ev', {'p': n,
+                                                            'b': b'x'}, to=t,
                                                      skip_sid=sk,
                                                      namespace=ns)
-                            return s.api(via, 'emit', 'ev', {'p': n}, to=t,
+                            return s.api(via, 'emit', 'ev',
+                                         {'p': n, 'b': b'x'}, to=t,
                                          skip_sid=sk, namespace=ns)
                         ra, rb = self._both(w, do)
                         self._results(w, ('emit', to, skip, via, ns), ra, rb)
